@@ -21,7 +21,7 @@ CONFIG = dict(
     min_nontrivial={"quick": 2000, "thorough": 50000},
     nshards={"quick": 16, "thorough": 16},
     timeout={"quick": 900, "thorough": 7200},
-    required_counters=("lockstep_steps", "trace_checks"),
+    required_counters=("lockstep_steps", "trace_checks", "snapshot_steps_compared"),
 )
 
 
@@ -133,6 +133,78 @@ def trace_check(ctx, label, data, o, names):
             return
 
 
+def snapshot_resume(ctx, label, data, o, names):
+    """Stepping resumed from a snapshot: the interpreter is deep-copied at a prefix (a debugger's checkpoint, a
+    worker that got the state shipped) and the copy stepped on.  After every further opcode the copy has the same
+    depth, mark positions and memo keys as the interpreter it was copied from (which the lockstep above compares
+    with the VM), and a trace of the copy returns the same program."""
+    import copy
+    f = de.fickle()
+    from fickling import tracing
+    agg = ctx.agg
+    n = len(names or ())
+    if not o.fick_ok or n < 3 or n > 80:
+        return
+    marks_at = [i for i, nm in enumerate(names) if nm == "MARK"]
+    cuts = sorted({(marks_at[0] + 1) if marks_at else 1, n // 2, (marks_at[-1] + 1) if marks_at else n - 1} - {0, n})
+
+    def shape(it):
+        st = it.stack
+        return (len(st), [j for j, x in enumerate(st) if isinstance(x, f.MarkObject)], sorted(map(repr, it.memory)))
+    for cut in cuts:
+        try:
+            live = f.Interpreter(f.Pickled.load(data))
+            for _ in range(cut):
+                live.step()
+            snap = copy.deepcopy(live)
+        except RecursionError:
+            return
+        except Exception as e:
+            agg.count(f"snapshot_not_possible_{type(e).__name__}")
+            return
+        agg.count("snapshots_resumed")
+        for k in range(cut, n):
+            try:
+                a = live.step()
+            except (StopIteration, Exception):
+                break
+            try:
+                snap.step()
+                bad = shape(snap) != shape(live)
+                what = f"{shape(snap)} where the interpreter it was copied from has {shape(live)}"
+            except RecursionError:
+                return
+            except Exception as e:
+                bad, what = True, f"{type(e).__name__}: {str(e)[:100]}"
+            agg.count("snapshot_steps_compared")
+            if bad:
+                agg.violation(f"snapshot-resume-diverges:{a.info.name}",
+                              f"an interpreter deep-copied after {cut} opcodes and stepped on: after {a.info.name} (opcode {k}) it has {what}",
+                              diffrun.witness(label, data, names, cut=cut, snapshot=True))
+                return
+            if a.info.name == "STOP":
+                break
+        try:
+            l2 = f.Interpreter(f.Pickled.load(data))
+            for _ in range(cut):
+                l2.step()
+            with contextlib.redirect_stdout(io.StringIO()):
+                traced = tracing.Trace(copy.deepcopy(l2)).run()
+            plain = f.Interpreter(f.Pickled.load(data)).to_ast()
+        except RecursionError:
+            return
+        except Exception as e:
+            agg.violation(f"snapshot-trace-raises:{type(e).__name__}",
+                          f"tracing an interpreter deep-copied after {cut} opcodes raises although untraced decompilation succeeds: {str(e)[:100]}",
+                          diffrun.witness(label, data, names, cut=cut, snapshot=True))
+            return
+        if de.sdump(traced) != de.sdump(plain):
+            agg.violation("snapshot-trace-changes-program",
+                          f"tracing an interpreter deep-copied after {cut} opcodes returns a different program from untraced decompilation",
+                          diffrun.witness(label, data, names, cut=cut, snapshot=True, traced=ast.unparse(traced)[:300], plain=ast.unparse(plain)[:300]))
+            return
+
+
 def oracle(ctx, label, data, o, names):
     agg = ctx.agg
     ch = h(data)
@@ -152,6 +224,8 @@ def oracle(ctx, label, data, o, names):
     # tracing: all directed / natural / vocabulary programs, and a deterministic 1-in-8 sample of the rest
     if o.parse_err is None and (not label.startswith(("exh", "rand")) or int(ch[:2], 16) % 8 == 0):
         trace_check(ctx, label, data, o, names)
+    if o.parse_err is None and o.has_markmemo and int(ch[2:4], 16) % 4 == 0:
+        snapshot_resume(ctx, label, data, o, names)
 
 
 def run_shard(ctx):
